@@ -98,12 +98,14 @@ def step_line(i: int, b: int, gap: str, ind: str, text: str) -> bool:
     line = ind + bullet + gap + kw + text + "\n"
     got, tok = _match("StepLine", line)
     t = bullet + gap + kw + text
-    # expected: a list item bullet, optional blanks, then the first listed step keyword that prefixes the rest
+    # expected, read off the line itself: a list item bullet ('*', '+' or '-') as first character, optional blanks, then the first listed
+    # step keyword that prefixes the rest (the keyword '* ' of the harness's own pick can itself act as the bullet when no bullet is put in front)
     want = None
-    if bullet in ("*", "+", "-"):
+    lead = lstrip_len(t)      # blanks in front of the first non-blank character are indentation
+    t = t[lead:]
+    if len(t) >= 1 and t[0] in ("*", "+", "-"):
         rest = t[1:]
         j = lstrip_len(rest)
-        # the matcher may also read the bullet '*' itself as the keyword '* ' - only when the line has no bullet before it, which is excluded here
         for cut in range(j, -1, -1):
             for k in STEP_KWS:
                 if rest[cut:].startswith(k):
@@ -112,14 +114,12 @@ def step_line(i: int, b: int, gap: str, ind: str, text: str) -> bool:
             if want:
                 break
     if want is None:
-        if bullet in ("", "#"):
-            return not got
-        return True if not got else False
+        return not got
     sym.reach("recognised")
     if not got:
         return False
     k, off, remainder = want
-    return tok.matched_type == "StepLine" and tok.matched_keyword == k and tok.location == {"line": 1, "column": len(ind) + off + 1} and \
+    return tok.matched_type == "StepLine" and tok.matched_keyword == k and tok.location == {"line": 1, "column": len(ind) + lead + off + 1} and \
         tok.matched_text == trim(remainder)
 
 
